@@ -272,9 +272,9 @@ func getConverter(src, dst SQLValueType) (converterFunc, error) {
 				u, err := uuid.FromBytes(bs)
 				if err != nil {
 					return nil, fmt.Errorf(
-						"%w: can not cast blob '%s' as an UUID",
+						"%w: can not cast blob '%x' as an UUID",
 						ErrUnsupportedCast,
-						val.RawValue().(string),
+						bs,
 					)
 				}
 
